@@ -438,6 +438,25 @@ def site_case(c):
         g.compute_rpo()
         _ig, heads = cf.intervals(g)
         return ";".join("%s:%s" % (h.name, ".".join(n.name for n in iv.content)) for h, iv in heads.items())
+    if op == "ifst":
+        # the real if_struct on a graph with chosen conditional nodes, numbers and idoms dict (insertion order given)
+        allv = sorted(int(k) for k in c["nums"])
+        conds = set(c["conds"])
+        nodes = {i: (bb.CondBlock(str(i), []) if i in conds else bb.StatementBlock(str(i), [])) for i in allv}
+        g = gr.Graph()
+        for i in allv:
+            g.add_node(nodes[i])
+        for a, b in c["edges"]:
+            g.add_edge(nodes[a], nodes[b])
+        g.entry = nodes[c["entry"]]
+        for k, v in c["nums"].items():
+            nodes[int(k)].num = v
+        idoms = {}
+        for n, d in c["idoms"]:
+            idoms[nodes[n]] = nodes[d]
+        unres = cf.if_struct(g, idoms)
+        fol = ",".join("%d>%s" % (i, nodes[i].follow["if"].name) for i in allv if nodes[i].follow["if"] is not None) or "-"
+        return fol + " U " + (",".join(str(i) for i in sorted(int(x.name) for x in unres)) or "-")
     if op == "dseq":
         # the real derived_sequence; `intervals` is wrapped only to keep a reference to every interval graph
         # (the last, single-node one is not part of the returned deriv_seq)
